@@ -880,6 +880,10 @@ func (e *Env) callSpec(t ECall) Val {
 		v := e.eval(t.Args[0])
 		bufs, _, _ := vc.poolComps(e.st)
 		return mathBool(fmt.Sprintf("(select %s %s)", bufs, v.T))
+	case "pool_held": // the *bytes.Buffer is checked out of its pool by the function under verification
+		v := e.eval(t.Args[0])
+		c := vc.comp(e.st, poolHeldComp, "(Array Int Bool)")
+		return mathBool(fmt.Sprintf("(select %s %s)", c, v.T))
 	case "buf_arr": // identity of the backing array of a *bytes.Buffer
 		v := e.eval(t.Args[0])
 		c := vc.bufArr(e.st)
@@ -1039,6 +1043,8 @@ func (e *Env) modTarget(x Expr, out map[string][]string) {
 			out[poolBufsComp] = append(out[poolBufsComp], "POOL")
 			out[poolArraysComp] = append(out[poolArraysComp], "POOL")
 			out[bufArrComp] = append(out[bufArrComp], "ALL")
+			vc.comp(e.st, poolHeldComp, "(Array Int Bool)")
+			out[poolHeldComp] = append(out[poolHeldComp], "ALL")
 			out[ek] = append(out[ek], "POOLED")
 			return
 		case "once_done":
